@@ -39,6 +39,12 @@ def _hand_made(P: Any) -> list[tuple[str, list[Any], list[list[Any]], list[Any]]
         o(8, "DefaultText", [pa("SsbOpParamLanguageString", {"english": "d"})]), o(9, "End", [])]], [None]))
     sets.append(("many-labels-same-target", [inf("GENERIC")], [[
         o(0, "Branch", [pa("SsbOpParamConstant", "$A"), 1, 3]), o(1, "Branch", [pa("SsbOpParamConstant", "$B"), 2, 3]), o(2, "Jump", [3]), o(3, "t", []), o(4, "Jump", [0])]], [None]))
+    sets.append(("position-marks-at-the-edges", [inf("GENERIC")], [[
+        o(0, "mk", [pa("SsbOpParamPositionMarker", "edge", 0, 0, -1, 5), pa("SsbOpParamPositionMarker", "edge2", 2, 2, -1, -1), pa("SsbOpParamPositionMarker", "z", 0, 2, 0, 0),
+                    pa("SsbOpParamPositionMarker", "big", 2, 0, 255, -128)]), o(1, "End", [])]], [None]))
+    sets.append(("coroutines-after-other-routines", [inf("GENERIC"), inf("ACTOR", 3), inf("COROUTINE"), inf("COROUTINE")], [
+        [o(0, "g", []), o(1, "End", [])], [o(2, "h", []), o(3, "End", [])], [o(4, "i", []), o(5, "Return", [])], [o(6, "j", []), o(7, "Return", [])]],
+        [None, None, "CORO_LATE_A", "CORO_LATE_B"]))
     sets.append(("offsets-with-gaps", [inf("GENERIC")], [[o(10, "a", []), o(20, "Branch", [pa("SsbOpParamConstant", "$V"), 1, 40]), o(30, "b", []), o(40, "End", [])]], [None]))
     return sets
 
